@@ -330,7 +330,7 @@ def decide_and_report(prop, plan, ctx, verdicts, xchk, oracle, canary, audit, st
                     if c.harness is None:
                         dom = []
                         for pat, ex_ in (plan.relevance or {}).items():
-                            if pat in v.name and isinstance(ex_, tuple) and ex_[0] == "within" and ":path" in pat:
+                            if pat in v.name and isinstance(ex_, tuple) and ex_[0] == "within" and (":path" in pat or "html_escape" in pat):
                                 dom = [ex_[1]]
                         n, mm = RP.differential(ctx.src, c, n=600 if dom else 400, seed=ctx.seed, atoms=atoms, extra_requires=dom)
                         if dom and not mm and not (plan.own(v.name) if plan.own else True):
@@ -373,7 +373,11 @@ def decide_and_report(prop, plan, ctx, verdicts, xchk, oracle, canary, audit, st
                 try:
                     c = ctx.db.get(q)
                     if c.harness is None and c.verify:
-                        n, mm = RP.differential(ctx.src, c, n=500, seed=ctx.seed + 3, atoms={"allow_ob": True})
+                        dom = []
+                        for pat, ex_ in (plan.relevance or {}).items():
+                            if pat in v.name and isinstance(ex_, tuple) and ex_[0] == "within":
+                                dom = [ex_[1]]
+                        n, mm = RP.differential(ctx.src, c, n=500, seed=ctx.seed + 3, atoms={"allow_ob": True}, extra_requires=dom)
                         if mm:
                             found = {"function": q, "failing_input": mm[0]["input"], "expected_by_contract": mm[0].get("expected"), "observed_real": mm[0].get("observed")}
                 except Exception as ex:
